@@ -210,3 +210,133 @@ def install_clean(w):
     w.call_lemmas[(Q, Q)] = lambda s0, s, v: clean_frame_steps(s0, s)
     w.call_lemmas[(Q, "metapype.eml.validate:node")] = lambda s0, s, v: clean_frame_steps(s0, s)
     return con
+
+
+# ------------------------------------------------------------------------------------------------ the first loop: children the rule does not permit
+def install_first_loop(w):
+    """prune on a known, non-metadata node whose own validation fails, up to the loop that recurses into the children (LoopC(stop=...)): the loop
+    over the snapshot of the children removes the ones the node's rule does not permit.  Proved: nothing is raised; every child left in the list is
+    permitted; the children that are still to be looked at are still there, in order; the other nodes' child lists are untouched; the
+    Forest/Linked/own-lists invariants hold again; every node of a subtree that was kept is still registered.  (Which ones are reported, and the exact
+    registry delta, are left to the bounded pass.)"""
+    import metapype.eml.rule as rule_mod
+    from metapype.eml import validate
+    from metapype.eml.exceptions import MetapypeRuleError, UnknownNodeError
+    from pyvc.values import Sym
+    from .node_ops import kids_typed
+    known = list(rule_mod.node_mappings)
+    node_ops.install_remove_child(w)
+    node_ops.install_delete(w)
+    MD = z3.StringVal("metadata")
+
+    def is_known(s, n):
+        return smt.disj([s.name(n) == z3.StringVal(x) for x in known])
+
+    def allowed(s, pname, cname_val):
+        j = z3.Int("fa_j")
+        L = _RN(pname)
+        return z3.Exists([j], z3.And(0 <= j, j < s.len(L), s.at(L, j) == cname_val))
+
+    node_con = Contract("metapype.eml.validate:node", params={"n": "Node"}, ensures=lambda s0, s, n, errs=None, result=None: {"no-new-nodes": no_new_nodes(s0, s)},
+                        raises=[(UnknownNodeError, lambda s, n, errs=None: z3.Not(is_known(s, n)), None),
+                                (MetapypeRuleError, lambda s, n, errs=None: z3.And(is_known(s, n), z3.Not(VALIDN(s, n))), None)],
+                        writes=(), mod=lambda s0, r, **kw: z3.BoolVal(False), allocates=True, result_ty="none", modular=True, trusted=True,
+                        assumptions=("validate.node by contract (C04): UnknownNodeError exactly for unknown names, otherwise a rule error exactly when the node is not valid",))
+    w.add(node_con)
+
+    def ext_get_rule(ip, node_name):
+        c = ip.c
+        r = ip.call(rule_mod.Rule, ["anyNameRule"], {})
+        nm = z3.StringVal(node_name) if isinstance(node_name, str) else node_name.t
+        t = _RN(nm)
+        c.assume(c.ty_fact(Val.ref(t), "list:str"))
+        j = z3.Int("rn_j")
+        e = c.heap.get("lelem")[t]
+        c.assume(smt.FA([j], Val.is_strv(e[j]), patterns=[e[j]]))
+        c.assume(t < c.heap0.top)
+        r.fields["_rule_children_names"] = Sym(t, "list:str")
+        c.assumptions_used.add("rule.get_rule by name: the rule object's child-name list is the ghost rule_child_names_of(element name)")
+        return r
+    w.externals[rule_mod.get_rule] = ext_get_rule
+
+    def requires(s, n, strict):
+        m = z3.Int("fq_m")
+        d = {"case": z3.And(is_known(s, n), s.name(n) != MD, z3.Not(VALIDN(s, n)))}
+        d.update(shape_inv(s))
+        d["tree"] = z3.And(TREE(s, n), wf_sub(s, n))
+        d["registered"] = z3.And(reg_sub(s, n), kind(STORE) == KIND_DICT)
+        d["rule-lists-are-no-child-lists"] = smt.FA([m], z3.Implies(s.is_node(m), s.kids(m) != _RN(s.name(n))), patterns=[s.f("_children", m)])
+        d["ids-are-strings"] = smt.FA([m], z3.Implies(SUB(s, n, m), Val.is_strv(s.f("_id", m))), patterns=[SUB(s, n, m)])
+        return d
+
+    def axioms(s, n, strict):
+        return tree_axioms(s, n)
+
+    def live(s0, s, v):
+        return s0.kids(v.n)          # the list object of n never changes (remove_child keeps it)
+
+    def inv(s0, s, v):
+        n, k = v.n, v._k
+        L = live(s0, s, v)
+        n0 = s0.nkids(n)
+        P = s.len(L) - (n0 - k)
+        t, i, m, j = z3.Ints("fi_t fi_i fi_m fi_j")
+        x = v.raw("children")
+        C = x.ref if isinstance(x, PList) else x.t
+        cl = {"bound": z3.And(0 <= k, k <= n0), "same-list-object": s.f("_children", n) == s0.f("_children", n),
+              "snapshot": z3.And(C >= s0.top, s.len(C) == n0, smt.FA([j], z3.Implies(z3.And(0 <= j, j < n0), s.at(C, j) == s0.at(L, j)), patterns=[s.at(C, j)])),
+              "prefix-size": z3.And(0 <= P, P <= k),
+              # u: absolute index into the children as they were (patterns cannot match modulo arithmetic)
+              "still-to-look-at": smt.FA([t], z3.Implies(z3.And(k <= t, t < n0), s.at(L, P + (t - k)) == s0.at(L, t)), patterns=[s0.at(L, t)]),
+              "kept-are-permitted": smt.FA([i], z3.Implies(z3.And(0 <= i, i < P), allowed(s0, s0.name(n), s0.f("_name", s.nat(L, i)))), patterns=[s.at(L, i)]),
+              "kept-are-old-children": smt.FA([i], z3.Implies(z3.And(0 <= i, i < P), z3.And(Val.is_ref(s.at(L, i)), SUB(s0, n, s.nat(L, i)), s.nat(L, i) != n,
+                                                                                   W(s0, n, s.nat(L, i)) < k)), patterns=[s.at(L, i)]),
+              "others-untouched": others_lists_unchanged(s0, s, n),
+              "unprocessed-still-registered": smt.FA([m], z3.Implies(z3.And(SUB(s0, n, m), m != n, W(s0, n, m) >= k), store_map(s)[s0.f("_id", m)] == Val.ref(m)),
+                                                     patterns=[SUB(s0, n, m)]),
+              "no-new-nodes": no_new_nodes(s0, s), "top": s.top >= s0.top}
+        cl.update({"shape:" + a: b for a, b in shape_inv(s).items()})
+        return cl
+
+    def loop_axioms(s0, s, v):
+        n, k = v.n, v._k
+        ch = s0.kid(n, k)
+        L = s0.kids(n)
+        inside = k < s0.nkids(n)
+        P = s.len(L) - (s0.nkids(n) - k)
+        d = {"kid-refl": SUB(s0, ch, ch)}
+        # explicit steps (each proved, then used): where this child sits, which subtree it heads, and that nothing below it has been touched
+        d["prove:this-child-heads-subtree-k"] = z3.Implies(inside, z3.And(SUB(s0, n, ch), ch != n, W(s0, n, ch) == k))
+        d["prove:this-child-sits-right-after-the-kept-ones"] = z3.Implies(inside, s.at(L, P) == s0.at(L, k))
+        for nm, f in subtree_frame_steps(s0, s, ch).items():
+            d[nm] = z3.Implies(inside, f)
+        return d
+
+    def at_removal(s0, s, v):
+        """call lemma for remove_child(n, child): the child's first occurrence in the live list is right after the kept ones"""
+        n = v.n
+        L = s0.kids(n)
+        k = v.loop_index(1)
+        P = s.len(L) - (s0.nkids(n) - k)
+        ch = Val.r(v.V("child"))
+        return {"idx": idx_def(s.elems(L), s.len(L), Val.ref(ch)), "prove:position-of-the-child": IDX(s.elems(L), s.len(L), Val.ref(ch)) == P}
+
+    def stop(s0, s, v):
+        n = v.n
+        L = s0.kids(n)
+        i = z3.Int("fs_i")
+        return {"top:every-child-left-is-permitted": smt.FA([i], z3.Implies(z3.And(0 <= i, i < s.len(L)), allowed(s0, s0.name(n), s0.f("_name", s.nat(L, i)))), patterns=[s.at(L, i)]),
+                "top:children-left-are-old-children": smt.FA([i], z3.Implies(z3.And(0 <= i, i < s.len(L)), z3.And(SUB(s0, n, s.nat(L, i)), s.nat(L, i) != n)), patterns=[s.at(L, i)]),
+                "top:other-lists-untouched": others_lists_unchanged(s0, s, n), **{"top:" + a: b for a, b in shape_inv(s).items()}}
+
+    con = Contract(Q, params={"n": "Node", "strict": "bool"}, requires=requires, axioms=axioms, ensures=lambda s0, s, result=None, **kw: {},
+                   writes=("llen", "lelem", "F:_parent") + DICT_ARRS,
+                   mods={"llen": lambda s0, r, n, strict: r == s0.kids(n), "lelem": lambda s0, r, n, strict: r == s0.kids(n),
+                         "F:_parent": lambda s0, r, n, strict: z3.And(SUB(s0, n, r), r != n)},
+                   mod=lambda s0, r, **kw: r == STORE, allocates=True, result_ty="list:val", modular=False,
+                   assumptions=("T-unfold(Sub,W,Tree,first_index)", "T-frame(subtree)"))
+    w.loop(Q, 1, inv=inv, axioms=loop_axioms, var_types={"child": "Node", "children": "list:Node"})
+    w.loop(Q, 2, stop=stop, stop_unchanged=False)
+    w.call_lemmas[(Q, node_ops.Q_REMOVE_CHILD)] = at_removal
+    w.call_lemmas[(Q, node_ops.Q_DELETE)] = lambda s0, s, v: subtree_frame_steps(s0, s, Val.r(v.V("child")))
+    return con
